@@ -30,12 +30,12 @@ const (
 
 // Oracle groups.
 const (
-	OState   uint32 = 1 << iota // world == model through the public API (C01, C02, C05)
-	OInv                        // structural invariants hook
-	OFilters                    // every menu filter, plain and registered, selects the model's set (C03 basic, C07)
-	OIter                       // deep iteration oracle: Count/EntityAt/Step compositions (C03)
-	OEvents                     // event oracle (C11)
-	OTranscript                 // record a transcript hash (C13)
+	OState      uint32 = 1 << iota // world == model through the public API (C01, C02, C05)
+	OInv                           // structural invariants hook
+	OFilters                       // every menu filter, plain and registered, selects the model's set (C03 basic, C07)
+	OIter                          // deep iteration oracle: Count/EntityAt/Step compositions (C03)
+	OEvents                        // event oracle (C11)
+	OTranscript                    // record a transcript hash (C13)
 )
 
 // Cfg describes a scenario.
@@ -57,8 +57,8 @@ type Cfg struct {
 	Feat      uint32
 	Oracles   uint32
 	Listener  bool
-	Values    int // number of distinct value indices (default 1)
-	MaxBatch  int // max batch creation count (default 2)
+	Values    int                      // number of distinct value indices (default 1)
+	MaxBatch  int                      // max batch creation count (default 2)
 	Prefer    func(f *wx.Failure) bool // which failure to report when several oracles fire on the same state
 	// PreloadDump, if set, provides an entity dump that is loaded into the fresh world before the history starts.
 	PreloadDump func() *ecs.EntityDump
